@@ -1,5 +1,6 @@
 -- root of the `Librfn` library: everything a clean `lake build` must check
 import Librfn.Props.C16
 import Librfn.Props.C17
+import Librfn.Props.C09
 import Librfn.Props.C19
 import Librfn.Props.C20
